@@ -1006,6 +1006,7 @@ let mut vx_n: usize = 0;
                     vx_n <= 2,
                     spans_ctx(spans@, vx_b), spans_fit(types_l@), spans_fit(types_r@), bounds_in(vx_b, types_l@, types_r@),
                     emitted_ok(inferences@, equalities@, types_l@, types_r@, spans@),       //@ob C14.mp.packed_packed.operand_spans_related_to_their_tiles C12.mp.packed_packed.sub_spans_inside_their_parent_span
+                    equalities@.len() + inferences@.len() == (if vx_n == 0 { 0 } else if vx_n == 1 { types_l@.len() } else { types_l@.len() + types_r@.len() }),       //@ob C14.mp.packed_packed.one_item_per_operand_span
                 decreases 2 - vx_n,
             {
                 let input: &Vec<Span> = if vx_n == 0 { $2 } else { $3 };
@@ -1030,9 +1031,11 @@ let vx_in0 = vx_iter(input);
                     }
                 }
                 let mut vx_m: usize = 0;
+                let ghost vx_base = equalities@.len() + inferences@.len();
                 while vx_m < vx_sorted.len()
                     invariant
-                        vx_m <= vx_sorted.len(),
+                        vx_m <= vx_sorted.len(), vx_sorted@.len() == input@.len(),
+                        equalities@.len() + inferences@.len() == vx_base + vx_m,       //@ob C14.mp.packed_packed.one_item_per_operand_span
                         spans_ctx(spans@, vx_b), spans_fit(types_l@), spans_fit(types_r@), bounds_in(vx_b, types_l@, types_r@),
                         input@ == types_l@ || input@ == types_r@,
                         forall|k: int| 0 <= k < vx_sorted@.len() ==> input@.contains(*#[trigger] vx_sorted@[k]),
@@ -1065,7 +1068,7 @@ let mut corresponding_new_spans: Vec<Span> = Vec::new();
                     let mut vx_j: usize = 0;
                     while vx_j < spans.len()
                         invariant
-                            vx_j <= spans.len(), vx_j <= vx_p,
+                            vx_j <= spans.len(), vx_j <= vx_p,                       //@ob C12.mp.packed_packed.tiles_start_at_the_span_start
                             spans_ctx(spans@, vx_b), 0 <= vx_p < vx_b.len(), vx_b[vx_p] == span.offset,
                         ensures
                             vx_j == vx_p,                       //@ob C12.mp.packed_packed.tiles_start_at_the_span_start
@@ -1079,7 +1082,7 @@ let mut corresponding_new_spans: Vec<Span> = Vec::new();
                     let ghost vx_j0 = vx_j as int;
                     while vx_j < spans.len()
                         invariant
-                            0 <= vx_j0 <= vx_j <= spans.len(), vx_j0 == vx_p, vx_j <= vx_q,
+                            0 <= vx_j0 <= vx_j <= spans.len(), vx_j0 == vx_p, vx_j <= vx_q,                       //@ob C12.mp.packed_packed.tiles_end_at_the_span_end
                             spans_ctx(spans@, vx_b), s_end(*span) <= usize::MAX,
                             0 <= vx_p <= vx_q < vx_b.len(), vx_b[vx_p] == span.offset, vx_b[vx_q] == s_end(*span),
                             corresponding_new_spans@.len() == vx_j - vx_j0,
@@ -1217,6 +1220,7 @@ let mut all_new_spans: Vec<Span> = Vec::new();
         pp_full(left, right) ==> m.ty_vars@ =~= m.expression->types@.map_values(|s: Span| s.typ)
             && m.ty_vars@.no_duplicates(),                                                                         //@ob C14.mp.packed_packed.one_fresh_variable_per_span
         pp_full(left, right) ==> emitted_ok(m.judgements@, m.equalities@, left->types@, right->types@, triples(m.expression->types@)),      //@ob C14.mp.packed_packed.operand_spans_related_to_their_tiles C12.mp.packed_packed.sub_spans_inside_their_parent_span
+        pp_full(left, right) ==> m.equalities@.len() + m.judgements@.len() == left->types@.len() + right->types@.len(),       //@ob C14.mp.packed_packed.one_item_per_operand_span
         // ---- (3) Packed x DynamicArray|Bytes ----
         pb_case(left, right) ==> no_side_output(m) && (m.expression is Bytes || m.expression is Conflict),         //@ob C15.mp.packed_bytes.bytes_or_conflict
         pb_case(left, right) && string_geometry(pside(left, right)->types@) ==> m.expression is Bytes,             //@ob C15.mp.packed_bytes.string_encoding_is_dynamic_bytes
